@@ -71,12 +71,13 @@ CLAIMED.update({
              '(NaN payloads, signed zero, extremes are bit patterns, hence covered); a declared cast between integer types '
              '(Model/Cast.lean): cast_element_roundtrip (for every source integer the element written under the cast type '
              'exists and decodes under its code to castInt, which the type holds), cast_exact_when_held, cast_wraps '
-             '(otherwise the sample modulo 2^bits, nothing else); stream integer-casts (numpy vs castInt/encInt; file with '
-             'cast_dtype = file written from the model\'s values). Tie: tapped IFLR bodies vs '
+             '(otherwise the sample modulo 2^bits, nothing else), cast_int_to_double_exact; stream integer-casts (numpy vs '
+             'castInt/encInt/castIntToF64/castIntToF32; file with cast_dtype = file written from the model\'s values, for '
+             'inline, dict, structured and HDF5 sources). Tie: tapped IFLR bodies vs '
              'frameDataBody on bit patterns extracted independently from the arrays (all byte orders / layouts); '
              'oracle decodes the real file with the layout declared by its own CHANNEL objects.',
         note='PARTIAL: numpy element access for any byte order/stride/layout/read-only flag and casts from or to '
-             'floating-point types are outside the model; only the correspondence covers them.',
+             'floating-point types (int to float is modelled) are outside the model; only the correspondence covers them.',
         technique='Lean 4 proof (per-row round-trip + chunking lemma) + differential correspondence',
         design='§5 C03'),
     'C05': dict(
@@ -246,7 +247,9 @@ CLAIMED.update({
              '(over-long or non-ASCII IDENT/ASCII, integers outside a code\'s range, missing dataset, unequal row '
              'counts are errors), empty_list_faithful, and the setter rejections of the converter model (text_rejects_non_str, '
              'numeric_rejects_non_number, numeric_int_rejects_fraction, status_rejects_other_numbers, '
-             'reference_rejects_other_type, rejected_assignment_keeps_state). Tie: the setters stream (every attribute x '
+             'reference_rejects_other_type, rejected_assignment_keeps_state), and the write-time checks of Model/Checks.lean '
+             '(rejects_incomplete_logical_file, rejects_shared_set, rejects_foreign_reference; streams shared-sets and '
+             'reference-histories: what write answers vs acceptWrite). Tie: the setters stream (every attribute x '
              'every Python value kind, strict-reader oracle on what was accepted) and the malformed stream - valid specifications with one '
              'injected defect from a catalogue of ~30, or a degenerate value - must raise or decode to the expectation.',
         note='PARTIAL: which Python inputs are refused before the model applies (type checks, dtype validation, '
